@@ -338,7 +338,12 @@ pub fn inputs_c07(r: &mut Rng, n: usize, _tier: &str, out: &mut dyn Write) {
             }
             _ => {
                 let acc = *r.pick(&["to_et_duration", "to_tdb_duration", "to_jde_et_duration", "to_jde_tdb_duration"]);
-                writeln!(out, "dyn_acc {} {}:{}", acc, dstr(t_u), u).unwrap()
+                if r.chance(1, 3) {
+                    // "for every epoch": also epochs HELD in ET or TDB, read through either scale's accessors
+                    writeln!(out, "dyn_acc {} {}:{}", acc, dstr(t_d), *r.pick(&DYN)).unwrap()
+                } else {
+                    writeln!(out, "dyn_acc {} {}:{}", acc, dstr(t_u), u).unwrap()
+                }
             }
         }
     }
